@@ -336,6 +336,19 @@ def tensor_method(it, tv, name, args, kwargs, node):
     # ---------------- elementwise unary
     if base in ELEMENTWISE and not args and base != "conj":
         fn = ELEMENTWISE[base]
+        if base in ("log", "log1p") and t is not None:
+            # float facts the term algebra cannot see: 1 - sigmoid(x) is exactly 0 in double precision for x > 36.74, so
+            # log(1 - sigmoid(x)) is -inf there although it equals -softplus(x) over the reals (same for log(sigmoid(-x)))
+            arg = (1 + t) if base == "log1p" else t
+            one_minus = T.ONE - arg
+            a1 = one_minus.single_atom()
+            if a1 is not None and isinstance(a1, T.App) and a1.op == "sigmoid":
+                it.numeric.append((it.site(node), "log(1 - sigmoid(x))", a1.args[0], tuple(fr.func.qualname for fr in it.frames if fr.func is not None)))
+            # log(1 + exp(x)) written out: exp overflows to inf for x > 709.78 (F.softplus switches to x above its threshold)
+            rest = arg - T.ONE
+            sm_ = rest.single_mono()
+            if sm_ is not None and sm_[1] == 1 and len(sm_[0]) == 1 and isinstance(sm_[0][0][0], T.Exp) and sm_[0][0][1] == 1 and not sm_[0][0][0].arg.is_const():
+                it.numeric.append((it.site(node), "log(1 + exp(x)) [overflow]", sm_[0][0][0].arg, tuple(fr.func.qualname for fr in it.frames if fr.func is not None)))
         nt = map_stack(fn, t)
         if inplace:
             it.write(tv, nt, node, name)
